@@ -68,7 +68,12 @@ def cases(draw):
         rnd.prog.insert(1, ["at", "ExcludeRegion", "off"] + (["paused"] if draw(st.integers(0, 2)) == 0 else []))
     for o in abstract:
         rnd.op(o)
-    rnd.prog = gen.respell_prog(rnd.prog, draw(st.sampled_from(["plain", "plain", "plain", "compact", "plus"])))
+    if draw(st.integers(0, 40)) == 0:
+        # a long print: hundreds of distinct moves in the free corner, then the same ops again (many render to the same commands)
+        rnd.raster(draw(st.sampled_from([300, 600, 1300])), "out", draw(st.booleans()))
+        for o in abstract:
+            rnd.op(o)
+    rnd.prog = gen.respell_prog(rnd.prog, draw(st.sampled_from(["plain", "plain", "plain", "compact", "plus", "packed"])))
     regions = []
     if mode == "disabled":
         regions = cands
